@@ -17,26 +17,29 @@ func init() {
 	register(&core.Property{
 		ID:    "C01",
 		Title: "PBF scan yields exactly the encoded header and elements, field for field",
-		Explanation: "Structural necessary conditions, decided against the format definition parsed from osmformat.proto on every run: " +
-			"(R1) descriptor agreement: every protoscan read sits under the case of a field number the message defines and uses the read method of that field's declared type (packed columns through Iterator with element reads and Count wire class of the column's type); every descriptor field of a decoded message has a case; the generated struct tags agree with the .proto; " +
-			"(R2) freshness: in the dense/way/relation decoders no cached iterator left over from an earlier block or element can be used: an exact reachable-valuation analysis over found-flags and iterator states proves every use sees an iterator assigned in this call or nil; " +
-			"(R3) block parameters (granularity, offsets, date granularity, string table) are reset or re-allocated on every path before a block is parsed, and all parameters are parsed before any group is decoded; " +
-			"(R4) provenance: every element field is computed from the column the format assigns to it and from no other column, through the string table / offsets / granularities / unit constants the format prescribes; " +
-			"(R5) columns marked DELTA coded reach the element through a running sum, the others do not; " +
-			"(R6) every element literal starts with Visible: true; header fields come from the same-named header getters, the bbox edges from left/right/bottom/top scaled by 1e-9, the replication timestamp only under a presence test. " +
+		Explanation: "Structural necessary conditions, decided against the format definition parsed from osmformat.proto on every run. Every rule is keyed on roles and data flow (which bytes hold which message, which read executes under which field number, which iterator field carries which column), decided on the control-flow graph through guard facts and by following static calls inside the package; names of helpers and locals, if/switch shape, branch order and the split of a decoder into methods play no role. " +
+			"(R1) descriptor agreement: every protoscan read executes under a field number the message defines (case clause, tagless switch, `== N` test, inherited through *protoscan.Message parameters) and uses the read method of that field's declared type (packed columns through Iterator with element reads and Count wire class of the column's type); every descriptor field of a decoded message is tested for; the generated struct tags agree with the .proto; " +
+			"(R2) freshness: while one DenseNodes / Way / Relation message is decoded no cached iterator left over from an earlier block or element can be used: an exact reachable-valuation analysis over found-flags, returned errors and iterator states, run from the method that receives the element's bytes with every decoder method it calls inlined, proves every use sees an iterator assigned from the current message, or nil where the use is nil-guarded; " +
+			"(R3) block parameters (granularity, offsets, date granularity, string table) are reset or re-allocated on every path from the decode entry point to the first read of a block's message (resets may live in helpers), no parameter is parsed once a group has been decoded, and the groups are only reachable through the exhausted exit of the parameter loop; " +
+			"(R4) provenance: every element field is computed from the column the format assigns to it and from no other column, through the string table / offsets / granularities / unit constants (compared by value) the format prescribes; values are traced context-sensitively through helper functions; " +
+			"(R5, part of R4) columns marked DELTA coded reach the element through a running sum, the others do not; " +
+			"(R6) every element literal starts with Visible: true; header fields come from the same-named header getters, the bbox edges from left/right/bottom/top scaled by 1e-9, the replication timestamp only under a presence test of its field; " +
+			"(R7, shared with C08.O5) element storage kept for reuse (tags, way nodes, members) is only re-sliced to [:0], extended by append of whole elements or replaced by zeroed make: a reused, non-zeroed backing array would let an element inherit a value (e.g. node coordinates) from an earlier element. " +
 			"NOT decided: numeric equality of coordinates/timestamps (overflow, rounding), UTF-8 and zlib handling, behaviour of protoscan and protobuf-go themselves, files using non-packed encodings of packed fields.",
-		Assumptions: []string{"go/types, go/cfg (x/tools v0.29.0)", "osmformat.proto in the repository is the format definition (its `// DELTA coded` comments mark delta columns)", "OSMData blobs hold a PrimitiveBlock", "protoscan read methods decode the wire encoding their name says"},
+		Assumptions: []string{"go/types, go/cfg (x/tools v0.29.0)", "osmformat.proto in the repository is the format definition (its `// DELTA coded` comments mark delta columns)", "OSMData blobs hold a PrimitiveBlock", "protoscan read methods decode the wire encoding their name says", "one per-worker decoder value per goroutine (its fields are not shared)"},
 		LevelText:   "Structural necessary conditions of field-for-field faithful decoding, decided for every read site, every cached iterator use on every path, and every element field store: agreement with the parsed format descriptor, no stale per-decoder state, right column / formula shape / delta coding per field.",
 		LevelNote:   "Trusts the type checker, go/cfg, the .proto file as specification, and the protoscan/protobuf libraries. Numeric results are not decided.",
-		Technique:   "descriptor-driven typing of protoscan messages (case/field/method agreement) + exact powerset abstract interpretation of found-flags and iterator states over go/cfg + syntactic provenance tracing of field stores against a column table derived from the .proto",
-		DesignRef:   "DESIGN.md §3.2, §5 C01, Appendix A",
+		Technique:   "descriptor-driven typing of protoscan messages by data-flow propagation (field number decided through guard facts on go/cfg) + exact powerset abstract interpretation of found-flags, error results and iterator states with inlining of decoder methods + context-sensitive provenance tracing of field stores against a column table derived from the .proto + must/may call summaries for reset ordering",
+		DesignRef:   "DESIGN.md §3.2, §5 C01, Appendix A; checker/ROBUSTNESS.md",
 		Rules: []*core.Rule{
-			{ID: "R1", Floor: 110, Doc: "descriptor agreement of cases, read methods, iterator element types, generated tags", Run: c01R1},
-			{ID: "R2", Floor: 20, Doc: "no stale cached iterator is used", Run: c01R2},
+			{ID: "R1", Floor: 72, Doc: "descriptor agreement of field-number tests, read methods, iterator element types, generated tags (floor: descriptor fields of decoded messages + generated messages + iterator fields)", Run: c01R1},
+			{ID: "R2", Floor: 18, Doc: "no stale cached iterator is used (floor: iterator fields of the per-worker decoder)", Run: c01R2},
 			{ID: "R3", Floor: 6, Doc: "block parameters reset before parsing; parameters parsed before groups", Run: c01R3},
-			{ID: "R4", Floor: 36, Doc: "field provenance and formula shape", Run: c01R4},
-			{ID: "R6", Floor: 16, Doc: "format defaults and header mapping", Run: c01R6},
+			{ID: "R4", Floor: 30, Doc: "field provenance and formula shape (floor: destinations of the column table)", Run: c01R4},
+			{ID: "R6", Floor: 14, Doc: "format defaults and header mapping (floor: header fields + one literal per element kind)", Run: c01R6},
+			{ID: "R7", Floor: 5, Doc: "reused element storage is never re-exposed without zeroing (same necessary condition as C08.O5)", Run: c08O5},
 		},
+		Benign: append(append(append([]core.Mutant{}, c01Benign...), c01Benign2...), c01Benign3...),
 		Mutants: []core.Mutant{
 			{Name: "dense-uid-int32", File: "osmpbf/decode_data.go", Find: "v5, err := dec.uids.Sint32()", Replace: "v5, err := dec.uids.Int32()", ExpectRule: "R1", ExpectConstruct: "uids"},
 			{Name: "info-uid-as-uint32", File: "osmpbf/decode_data.go", Find: "\t\t\t\tcase 4:\n\t\t\t\t\tv, err := info.Int32()\n\t\t\t\t\tif err != nil {\n\t\t\t\t\t\treturn nil, err\n\t\t\t\t\t}\n\t\t\t\t\tway.UserID", Replace: "\t\t\t\tcase 4:\n\t\t\t\t\tv, err := info.Uint32()\n\t\t\t\t\tif err != nil {\n\t\t\t\t\t\treturn nil, err\n\t\t\t\t\t}\n\t\t\t\t\tway.UserID", ExpectRule: "R1", ExpectConstruct: "scanWays"},
@@ -45,7 +48,7 @@ func init() {
 			{Name: "drop-keyvals-nil", File: "osmpbf/decode_data.go", Find: "\tif !foundKeyVals {\n\t\tdec.keyvals = nil\n\t}\n", Replace: "\tif !foundKeyVals {\n\t}\n", ExpectRule: "R2", ExpectConstruct: "keyvals"},
 			{Name: "drop-visibles-nil", File: "osmpbf/decode_data.go", Find: "\t\t\tif !foundVisibles {\n\t\t\t\tdec.visibles = nil\n\t\t\t}\n", Replace: "\t\t\tif !foundVisibles {\n\t\t\t}\n", ExpectRule: "R2", ExpectConstruct: "visibles"},
 			{Name: "drop-noinfo-reset", File: "osmpbf/decode_data.go", Find: "\tif !foundInfo {\n\t\tdec.versions = nil\n\t\tdec.timestamps = nil", Replace: "\tif !foundInfo {\n\t\tdec.timestamps = nil", ExpectRule: "R2", ExpectConstruct: "versions"},
-			{Name: "tags-with-keys-or-vals", File: "osmpbf/decode_data.go", Find: "\tif foundKeys && foundVals {\n\t\tvar err error\n\t\tway.Tags, err = scanTags(st, dec.keys, dec.vals)", Replace: "\tif foundKeys || foundVals {\n\t\tvar err error\n\t\tway.Tags, err = scanTags(st, dec.keys, dec.vals)", ExpectRule: "R2", ExpectConstruct: "scanWays"},
+			{Name: "tags-with-keys-or-vals", File: "osmpbf/decode_data.go", Find: "\tif foundKeys && foundVals {\n\t\tvar err error\n\t\tway.Tags, err = scanTags(st, dec.keys, dec.vals)", Replace: "\tif foundKeys || foundVals {\n\t\tvar err error\n\t\tway.Tags, err = scanTags(st, dec.keys, dec.vals)", ExpectRule: "R2", ExpectConstruct: "fresh@Way"},
 			{Name: "members-without-types-flag", File: "osmpbf/decode_data.go", Find: "if foundRoles && foundMemids && foundTypes {", Replace: "if foundRoles && (foundMemids || foundTypes) {", ExpectRule: "R2", ExpectConstruct: "types"},
 			{Name: "drop-granularity-reset", File: "osmpbf/decode_data.go", Find: "\t\tdec.primitiveBlock.Granularity = nil\n", Replace: "", ExpectRule: "R3", ExpectConstruct: "Granularity"},
 			{Name: "drop-stringtable-reset", File: "osmpbf/decode_data.go", Find: "\t\tdec.primitiveBlock.Stringtable.S = dec.primitiveBlock.Stringtable.S[:0]\n", Replace: "", ExpectRule: "R3", ExpectConstruct: "S"},
@@ -60,6 +63,7 @@ func init() {
 			{Name: "relation-not-visible-by-default", File: "osmpbf/decode_data.go", Find: "\t\trelation = &osm.Relation{Visible: true}\n\t}\n\n\tvar foundKeys", Replace: "\t\trelation = &osm.Relation{}\n\t}\n\n\tvar foundKeys", ExpectRule: "R6", ExpectConstruct: "Relation"},
 			{Name: "header-source-from-writingprogram", File: "osmpbf/decode.go", Find: "Source:             headerBlock.GetSource(),", Replace: "Source:             headerBlock.GetWritingprogram(),", ExpectRule: "R6", ExpectConstruct: "Source"},
 			{Name: "bbox-top-bottom-swapped", File: "osmpbf/decode.go", Find: "MinLat: 1e-9 * float64(*headerBlock.Bbox.Bottom),", Replace: "MinLat: 1e-9 * float64(*headerBlock.Bbox.Top),", ExpectRule: "R6", ExpectConstruct: "MinLat"},
+			{Name: "way-nodes-regrown-unzeroed", File: "osmpbf/decode_data.go", Find: "way.Nodes = make(osm.WayNodes, dec.wlats.Count(protoscan.WireTypeVarint))", Replace: "if n := dec.wlats.Count(protoscan.WireTypeVarint); n <= cap(way.Nodes) {\n\t\t\t\t\tway.Nodes = way.Nodes[:n]\n\t\t\t\t} else {\n\t\t\t\t\tway.Nodes = make(osm.WayNodes, n)\n\t\t\t\t}", ExpectRule: "R7", ExpectConstruct: "scanWays"},
 			{Name: "member-type-way-as-node", File: "osmpbf/decode_data.go", Find: "\t\tcase osmpbf.Relation_WAY:\n\t\t\tmembers[index].Type = osm.TypeWay", Replace: "\t\tcase osmpbf.Relation_WAY:\n\t\t\tmembers[index].Type = osm.TypeNode", ExpectRule: "R4", ExpectConstruct: "Member.Type"},
 		},
 	})
@@ -87,100 +91,98 @@ func c01R1(r *core.R) {
 	fs := r.P.Fset
 	r.Stat("protoscan_message_variables", len(cm.vars))
 	r.Stat("descriptor_messages", len(cm.desc.Messages))
-	// (a) every read under the right case with the right method
+	// (a) every read executes under the field number of a field the message defines, with the read method of its type
+	readsOf := map[string]int{} // "Msg.N" -> number of well-typed reads
 	for _, rd := range cm.reads {
 		c := "read@" + rd.fi.Name() + " " + src(fs, rd.call)
 		if rd.mv == nil {
 			r.Unknown(c, rd.call.Pos(), "the protoscan message `%s` could not be tied to a message of the format definition", src(fs, rd.call.Fun.(*ast.SelectorExpr).X))
 			continue
 		}
-		if rd.caseN < 0 {
-			r.Unknown(c, rd.call.Pos(), "read is not inside a `case N` of `switch %s.FieldNumber()` (or an `fn == N` branch)", rd.mv.obj.Name())
+		if len(rd.cases) == 0 {
+			r.Unknown(c, rd.call.Pos(), "no condition on `%s.FieldNumber()` (case clause, `== N` test) controls this read of a %s message", rd.mv.obj.Name(), rd.mv.msg)
 			continue
 		}
-		fd := cm.desc.Messages[rd.mv.msg].Fields[rd.caseN]
-		c = fmt.Sprintf("read@%s %s.%d %s", rd.fi.Name(), rd.mv.msg, rd.caseN, rd.method)
-		if fd == nil {
-			r.Bad(c, rd.call.Pos(), "message %s has no field %d in osmformat.proto, yet `%s` decodes one: the value of whatever field carries that number is misread (and the intended field is skipped)", rd.mv.msg, rd.caseN, src(fs, rd.call))
-			continue
-		}
-		want := ""
-		switch {
-		case fd.IsMsg:
-			want = "MessageData"
-		case fd.Label == "repeated" && fd.Packed:
-			want = "Iterator"
-		case fd.IsEnum:
-			want = "Int32"
-		default:
-			want = c01ReadMethod[fd.Type]
-		}
-		if rd.method == want || (want == "MessageData" && rd.method == "Message") {
-			r.OK(c, rd.call.Pos(), "%s.%s = %d is `%s %s%s`: read with %s", rd.mv.msg, fd.Name, fd.Num, fd.Label, fd.Type, map[bool]string{true: " [packed]", false: ""}[fd.Packed], rd.method)
-		} else {
-			r.Bad(c, rd.call.Pos(), "%s.%s = %d is declared `%s %s` but is read with %s (the format requires %s): values are mis-decoded (zig-zag vs plain varint, width, or message vs scalar)", rd.mv.msg, fd.Name, fd.Num, fd.Label, fd.Type, rd.method, want)
+		for _, caseN := range rd.cases {
+			fd := cm.desc.Messages[rd.mv.msg].Fields[caseN]
+			c = fmt.Sprintf("read@%s %s.%d %s", rd.fi.Name(), rd.mv.msg, caseN, rd.method)
+			if fd == nil {
+				r.Bad(c, rd.call.Pos(), "message %s has no field %d in osmformat.proto, yet `%s` decodes one: the value of whatever field carries that number is misread (and the intended field is skipped)", rd.mv.msg, caseN, src(fs, rd.call))
+				continue
+			}
+			want := ""
+			switch {
+			case fd.IsMsg:
+				want = "MessageData"
+			case fd.Label == "repeated" && fd.Packed:
+				want = "Iterator"
+			case fd.IsEnum:
+				want = "Int32"
+			default:
+				want = c01ReadMethod[fd.Type]
+			}
+			if rd.method == want || (want == "MessageData" && rd.method == "Message") {
+				readsOf[fmt.Sprintf("%s.%d", rd.mv.msg, caseN)]++
+				r.OK(c, rd.call.Pos(), "%s.%s = %d is `%s %s%s`: read with %s", rd.mv.msg, fd.Name, fd.Num, fd.Label, fd.Type, map[bool]string{true: " [packed]", false: ""}[fd.Packed], rd.method)
+			} else {
+				r.Bad(c, rd.call.Pos(), "%s.%s = %d is declared `%s %s` but is read with %s (the format requires %s): values are mis-decoded (zig-zag vs plain varint, width, or message vs scalar)", rd.mv.msg, fd.Name, fd.Num, fd.Label, fd.Type, rd.method, want)
+			}
 		}
 	}
 	// proto.Unmarshal of embedded message data into the generated type
-	for _, u := range cm.m.sortedUnits() {
-		fd, ok := u.node.(*ast.FuncDecl)
-		if !ok || !u.roles["worker"] || isGenerated(r.P, fd.Pos()) {
-			continue
-		}
-		ast.Inspect(fd.Body, func(n ast.Node) bool {
+	for _, fi := range cm.worker {
+		fi := fi
+		ast.Inspect(fi.Decl.Body, func(n ast.Node) bool {
 			call, ok := n.(*ast.CallExpr)
 			if !ok || !isPkgFunc(callee(info, call), "google.golang.org/protobuf/proto", "Unmarshal") || len(call.Args) != 2 {
 				return true
 			}
-			msg := cm.dataMsg[objOf(info, call.Args[0])]
+			msg := cm.dataOf(c01Expand(info, fi.Decl.Body, call.Args[0]))
+			if msg == "" {
+				msg = cm.dataOf(call.Args[0])
+			}
 			if msg == "" {
 				return true
 			}
-			c := "unmarshal@" + u.fi.Name() + " " + msg
-			tn := namedPath(info.TypeOf(call.Args[1]))
-			if strings.HasSuffix(tn, "/osmpbf/internal/osmpbf."+msg) {
+			c := "unmarshal@" + fi.Name() + " " + msg
+			if tn := c01GenTypeName(info.TypeOf(call.Args[1])); tn == msg {
 				r.OK(c, call.Pos(), "embedded %s data is unmarshalled into *%s", msg, msg)
 			} else {
-				r.Bad(c, call.Pos(), "data of an embedded %s message is unmarshalled into %s", msg, tn)
+				r.Bad(c, call.Pos(), "data of an embedded %s message is unmarshalled into %s", msg, types.TypeString(info.TypeOf(call.Args[1]), nil))
 			}
 			return true
 		})
 	}
-	// (b) cases per message: defined numbers, and completeness
+	// (b) field numbers tested per message: defined numbers, and completeness
 	cases := map[string]map[int]token.Pos{}
 	for _, mv := range cm.vars {
 		if cases[mv.msg] == nil {
 			cases[mv.msg] = map[int]token.Pos{}
 		}
-		fnVars := map[types.Object]bool{}
+		f := c01FnOf(r.P, mv.fi)
+		mvo := mv.obj
+		note := func(e ast.Expr, k ast.Expr, pos token.Pos) {
+			if v, ok := constInt(info, k); ok && cm.isFieldNumberOf(f.innermost(e), e, mvo) {
+				if _, dup := cases[mv.msg][int(v)]; !dup {
+					cases[mv.msg][int(v)] = pos
+				}
+			}
+		}
 		ast.Inspect(mv.fi.Decl.Body, func(x ast.Node) bool {
 			switch s := x.(type) {
-			case *ast.AssignStmt:
-				if len(s.Lhs) == 1 && len(s.Rhs) == 1 {
-					if call, ok := s.Rhs[0].(*ast.CallExpr); ok && isMethod(callee(info, call), protoscanMsg, "FieldNumber") && rootObj(info, call.Fun.(*ast.SelectorExpr).X) == mv.obj {
-						fnVars[objOf(info, s.Lhs[0])] = true
-					}
-				}
 			case *ast.SwitchStmt:
 				if s.Tag == nil {
 					return true
 				}
-				call, ok := ast.Unparen(s.Tag).(*ast.CallExpr)
-				if !ok || !isMethod(callee(info, call), protoscanMsg, "FieldNumber") || rootObj(info, call.Fun.(*ast.SelectorExpr).X) != mv.obj {
-					return true
-				}
 				for _, cl := range s.Body.List {
 					for _, e := range cl.(*ast.CaseClause).List {
-						if v, ok := constInt(info, e); ok {
-							cases[mv.msg][int(v)] = e.Pos()
-						}
+						note(s.Tag, e, e.Pos())
 					}
 				}
 			case *ast.BinaryExpr:
-				if s.Op == token.EQL && fnVars[objOf(info, s.X)] {
-					if v, ok := constInt(info, s.Y); ok {
-						cases[mv.msg][int(v)] = s.Pos()
-					}
+				if s.Op == token.EQL || s.Op == token.NEQ {
+					note(s.X, s.Y, s.Pos())
+					note(s.Y, s.X, s.Pos())
 				}
 			}
 			return true
@@ -195,6 +197,10 @@ func c01R1(r *core.R) {
 	sort.Strings(msgs)
 	for _, mname := range msgs {
 		dm := cm.desc.Messages[mname]
+		if dm == nil {
+			r.Bad("message@"+mname, token.NoPos, "a protoscan message is typed %s, which osmformat.proto does not define", mname)
+			continue
+		}
 		var nums []int
 		for n := range cases[mname] {
 			nums = append(nums, n)
@@ -216,8 +222,13 @@ func c01R1(r *core.R) {
 		for _, n := range fnums {
 			fd := dm.Fields[n]
 			c := fmt.Sprintf("field@%s.%s", mname, fd.Name)
-			if _, ok := cases[mname][n]; ok {
-				r.OK(c, cases[mname][n], "decoded under case %d", n)
+			if pos, ok := cases[mname][n]; ok {
+				if readsOf[fmt.Sprintf("%s.%d", mname, n)] > 0 {
+					r.OK(c, pos, "tested as field number %d and decoded by %d correctly typed read(s)", n, readsOf[fmt.Sprintf("%s.%d", mname, n)])
+				} else {
+					// a field number that is tested but never read: either rejected on purpose (error/skip) or lost
+					r.OKTrivial(c, pos, "field number %d is tested but nothing is read under it (rejected or passed over on purpose; C08.O3 / C06 decide which)", n)
+				}
 			} else if why, ok := exempt[mname+"."+fd.Name]; ok {
 				r.OKTrivial(c, token.NoPos, "not decoded on purpose: %s", why)
 			} else {
@@ -248,64 +259,62 @@ func c01R1(r *core.R) {
 		}
 		r.OK(c, f.Pos(), "filled from %s: packed %s", strings.Join(srcs, ", "), col.Type)
 	}
-	for _, u := range cm.m.sortedUnits() {
-		fd, ok := u.node.(*ast.FuncDecl)
-		if !ok || !u.roles["worker"] || isGenerated(r.P, fd.Pos()) {
-			continue
-		}
-		ast.Inspect(fd.Body, func(n ast.Node) bool {
+	for _, fi := range cm.worker {
+		fi := fi
+		ast.Inspect(fi.Decl.Body, func(n ast.Node) bool {
 			call, ok := n.(*ast.CallExpr)
 			if !ok {
 				return true
 			}
-			sel, ok := call.Fun.(*ast.SelectorExpr)
-			if !ok {
+			sel, ok := ast.Unparen(call.Fun).(*ast.SelectorExpr)
+			if !ok || namedPath(info.TypeOf(sel.X)) != protoscanIter {
 				return true
 			}
-			s := info.Selections[sel]
-			if s == nil || namedPath(s.Recv()) != protoscanIter && namedPath(s.Recv()) != "github.com/paulmach/protoscan.base" {
-				// promoted methods of the embedded base have Recv() == Iterator
-				if s == nil || namedPath(info.TypeOf(sel.X)) != protoscanIter {
-					return true
-				}
-			}
-			if namedPath(info.TypeOf(sel.X)) != protoscanIter {
+			if s := info.Selections[sel]; s == nil || s.Kind() == types.FieldVal {
 				return true
 			}
 			method := sel.Sel.Name
 			if method == "HasNext" || method == "FieldNumber" {
 				return true
 			}
-			f := cm.iterField(sel.X)
-			c := "iterread@" + u.fi.Name() + " " + src(fs, sel.X) + "." + method
-			if f == nil {
-				r.Unknown(c, call.Pos(), "iterator `%s` is neither a cached decoder field nor a parameter bound to one", src(fs, sel.X))
+			fields := cm.iterFieldsIn(fi, sel.X)
+			c := "iterread@" + fi.Name() + " " + src(fs, sel.X) + "." + method
+			if len(fields) == 0 {
+				r.Unknown(c, call.Pos(), "iterator `%s` is neither a cached decoder field nor a parameter or local bound to one", src(fs, sel.X))
 				return true
 			}
-			col, why := cm.iterColumn(f)
-			if col == nil {
-				r.Bad(c, call.Pos(), "%s", why)
-				return true
-			}
-			switch method {
-			case "Count":
-				w, okc := constInt(info, call.Args[0])
-				if okc && w == c01WireClass(col.Type, col.IsEnum) {
-					r.OK(c, call.Pos(), "Count with the wire class of %s (%s)", col.Name, col.Type)
-				} else {
-					r.Bad(c, call.Pos(), "`%s` counts with wire type %d but %s is %s", src(fs, call), w, col.Name, col.Type)
+			// a parameter of a shared helper may be handed several columns: the read must fit each of them
+			for _, f := range fields {
+				c = "iterread@" + fi.Name() + " " + f.Name() + "." + method
+				col, why := cm.iterColumn(f)
+				if col == nil {
+					r.Bad(c, call.Pos(), "%s", why)
+					continue
 				}
-			case "Skip":
-				r.Unknown(c, call.Pos(), "Iterator.Skip is not modelled")
-			default:
-				want := c01ReadMethod[col.Type]
-				if col.IsEnum {
-					want = "Int32"
-				}
-				if method == want {
-					r.OK(c, call.Pos(), "column %s is packed %s: element read with %s", col.Name, col.Type, method)
-				} else {
-					r.Bad(c, call.Pos(), "column %s is packed %s but its elements are read with %s (the format requires %s): every value of the column is mis-decoded", col.Name, col.Type, method, want)
+				switch method {
+				case "Count":
+					var w int64 = -1
+					okc := false
+					if len(call.Args) == 1 {
+						w, okc = constInt(info, call.Args[0])
+					}
+					if okc && w == c01WireClass(col.Type, col.IsEnum) {
+						r.OK(c, call.Pos(), "Count with the wire class of %s (%s)", col.Name, col.Type)
+					} else {
+						r.Bad(c, call.Pos(), "`%s` counts with wire type %d but %s is %s", src(fs, call), w, col.Name, col.Type)
+					}
+				case "Skip":
+					r.Unknown(c, call.Pos(), "Iterator.Skip is not modelled")
+				default:
+					want := c01ReadMethod[col.Type]
+					if col.IsEnum {
+						want = "Int32"
+					}
+					if method == want {
+						r.OK(c, call.Pos(), "column %s is packed %s: element read with %s", col.Name, col.Type, method)
+					} else {
+						r.Bad(c, call.Pos(), "column %s is packed %s but its elements are read with %s (the format requires %s): every value of the column is mis-decoded", col.Name, col.Type, method, want)
+					}
 				}
 			}
 			return true
@@ -378,7 +387,7 @@ func c01R3(r *core.R) {
 	var pbField *types.Var
 	st := m.ddT.Underlying().(*types.Struct)
 	for i := 0; i < st.NumFields(); i++ {
-		if strings.HasSuffix(namedPath(st.Field(i).Type()), "/osmpbf/internal/osmpbf.PrimitiveBlock") {
+		if c01IsGenerated(st.Field(i).Type(), "PrimitiveBlock") {
 			pbField = st.Field(i)
 		}
 	}
@@ -386,42 +395,45 @@ func c01R3(r *core.R) {
 		r.Anchor("cached PrimitiveBlock field of the per-worker decoder")
 		return
 	}
-	// block scanner: function whose []byte parameter is typed PrimitiveBlock
-	var bs *FuncInfo
-	for po, msg := range cm.paramMsg {
-		if msg == "PrimitiveBlock" {
-			for _, u := range m.sortedUnits() {
-				if fd, ok := u.node.(*ast.FuncDecl); ok && fd.Pos() <= po.Pos() && po.Pos() <= fd.End() {
-					bs = u.fi
-				}
-			}
+	// the block message variable (the one created from the block's bytes, not a parameter bound to it)
+	var blockVar *c01MsgVar
+	for _, mv := range cm.vars {
+		if mv.msg == "PrimitiveBlock" && len(mv.binds) == 0 && blockVar == nil {
+			blockVar = mv
 		}
 	}
-	if bs == nil {
-		r.Anchor("function scanning a PrimitiveBlock")
+	if blockVar == nil {
+		r.Anchor("protoscan message created from the primitive block bytes")
 		return
 	}
-	// which parameters of the cached block are read anywhere in the worker role (getters or selectors), outside bs's reset
-	getter := map[string]string{"GetGranularity": "Granularity", "GetDateGranularity": "DateGranularity", "GetLatOffset": "LatOffset", "GetLonOffset": "LonOffset", "GetS": "S", "GetPrimitivegroup": "Primitivegroup"}
+	bs := blockVar.fi
+	// which parameters of the cached block are read in the worker role through the generated getters
 	needed := map[string]token.Pos{}
-	for _, u := range m.sortedUnits() {
-		fd, ok := u.node.(*ast.FuncDecl)
-		if !ok || !u.roles["worker"] || isGenerated(r.P, fd.Pos()) {
-			continue
-		}
-		ast.Inspect(fd.Body, func(n ast.Node) bool {
+	neededSrc := map[string]string{}
+	for _, fi := range cm.worker {
+		ast.Inspect(fi.Decl.Body, func(n ast.Node) bool {
 			call, ok := n.(*ast.CallExpr)
 			if !ok {
 				return true
 			}
 			fn := callee(info, call)
-			if fn == nil {
+			if fn == nil || !strings.HasPrefix(fn.Name(), "Get") || len(call.Args) != 0 {
 				return true
 			}
-			if fname, ok := getter[fn.Name()]; ok && usesField(info, call, pbField) {
-				if _, seen := needed[fname]; !seen {
-					needed[fname] = call.Pos()
-				}
+			sig := fn.Type().(*types.Signature)
+			if sig.Recv() == nil || c01GenTypeName(sig.Recv().Type()) == "" || sig.Results().Len() != 1 {
+				return true
+			}
+			if c01GenTypeName(sig.Results().At(0).Type()) != "" {
+				return true // getter of a sub-message: the parameters are its scalar / repeated leaves
+			}
+			if !usesField(info, call, pbField) {
+				return true
+			}
+			fname := strings.TrimPrefix(fn.Name(), "Get")
+			if _, seen := needed[fname]; !seen {
+				needed[fname] = call.Pos()
+				neededSrc[fname] = src(fs, call)
 			}
 			return true
 		})
@@ -429,23 +441,104 @@ func c01R3(r *core.R) {
 	if len(needed) < 5 {
 		r.Anchor(fmt.Sprintf("reads of the cached block's parameters through getters (found %d)", len(needed)))
 	}
-	g := newCFG(info, bs.Decl.Body)
-	// first message loop
-	var loops []*ast.ForStmt
-	for _, stt := range bs.Decl.Body.List {
-		if fsx, ok := stt.(*ast.ForStmt); ok {
-			loops = append(loops, fsx)
+	// throughBlock: the chain of e passes through the cached block; last = the last field selected
+	throughBlock := func(f *c01Fn, e ast.Expr) (bool, *types.Var) {
+		flds := c01ChainFields(info, c01Chain(info, f.body, e))
+		for _, fl := range flds {
+			if fl == pbField {
+				return true, flds[len(flds)-1]
+			}
+		}
+		return false, nil
+	}
+	isFresh := func(e ast.Expr) bool {
+		e = ast.Unparen(e)
+		if ue, ok := e.(*ast.UnaryExpr); ok && ue.Op == token.AND {
+			_, isLit := ast.Unparen(ue.X).(*ast.CompositeLit)
+			return isLit
+		}
+		if _, ok := e.(*ast.CompositeLit); ok {
+			return true
+		}
+		if call, ok := e.(*ast.CallExpr); ok {
+			return builtinName(info, call) == "new" || builtinName(info, call) == "make"
+		}
+		return false
+	}
+	// isReset(fname): node (re)establishes the format default of the cached parameter fname
+	isReset := func(fname string) c01EventPred {
+		return func(f *c01Fn, n ast.Node) bool {
+			switch s := n.(type) {
+			case *ast.AssignStmt:
+				if s.Tok != token.ASSIGN && s.Tok != token.DEFINE {
+					return false
+				}
+				for i, l := range s.Lhs {
+					if i >= len(s.Rhs) || len(s.Rhs) != len(s.Lhs) {
+						continue
+					}
+					thr, last := throughBlock(f, l)
+					if !thr {
+						continue
+					}
+					rhs := ast.Unparen(s.Rhs[i])
+					if last == pbField {
+						// the whole block is replaced (pointer re-pointed at a fresh value, or `*blk = T{...}`)
+						if isFresh(rhs) {
+							return true
+						}
+						continue
+					}
+					if last != nil && last.Name() != fname && (isNilIdent(rhs) || isFresh(rhs)) {
+						// a sub-message that holds the parameter is replaced as a whole (e.g. a fresh string table)
+						if st, ok := c01GenStruct(last.Type()); ok {
+							for i := 0; i < st.NumFields(); i++ {
+								if st.Field(i).Name() == fname {
+									return true
+								}
+							}
+						}
+					}
+					if last == nil || last.Name() != fname {
+						continue
+					}
+					if isNilIdent(rhs) || isFresh(rhs) {
+						return true
+					}
+					if se, ok := rhs.(*ast.SliceExpr); ok && se.Low == nil && se.High != nil && se.Max == nil {
+						if v, okc := constInt(info, se.High); okc && v == 0 && c01Same(info, f.body, se.X, l) {
+							return true
+						}
+					}
+				}
+			case *ast.ExprStmt:
+				// blk.Reset() of the generated type zeroes every field
+				if call, ok := s.X.(*ast.CallExpr); ok {
+					if fn := callee(info, call); fn != nil && fn.Name() == "Reset" && len(call.Args) == 0 {
+						if sel, ok := ast.Unparen(call.Fun).(*ast.SelectorExpr); ok {
+							if thr, last := throughBlock(f, sel.X); thr && last == pbField {
+								return true
+							}
+						}
+					}
+				}
+			}
+			return false
 		}
 	}
-	if len(loops) < 2 {
-		r.Unknown("passes@"+bs.Name(), bs.Decl.Pos(), "expected two top-level message loops (parameters, then groups), found %d", len(loops))
-		return
-	}
-	var head *cfg.Block
-	for _, b := range g.Blocks {
-		if b.Kind == cfg.KindForLoop && b.Stmt == loops[0] {
-			head = b
-		}
+	// a parse event: the block message is advanced
+	isParse := func(f *c01Fn, n ast.Node) bool {
+		return c01ContainsCall(n, func(call *ast.CallExpr) bool {
+			if !isMethod(callee(info, call), protoscanMsg, "Next") {
+				return false
+			}
+			sel, ok := ast.Unparen(call.Fun).(*ast.SelectorExpr)
+			if !ok {
+				return false
+			}
+			mv := cm.msgVarOf(sel.X)
+			return mv != nil && mv.msg == "PrimitiveBlock"
+		})
 	}
 	var names []string
 	for n := range needed {
@@ -453,132 +546,143 @@ func c01R3(r *core.R) {
 	}
 	sort.Strings(names)
 	for _, fname := range names {
-		c := "reset@" + bs.Name() + " " + fname
-		// defining statements: whole-struct allocation of the cached block, or assignment to .<fname> of nil / [:0]
-		isDef := func(n ast.Node) bool {
-			as, ok := n.(*ast.AssignStmt)
-			if !ok {
+		c := "reset@PrimitiveBlock " + fname
+		sum := c01NewSum(r.P, isReset(fname))
+		if sum.Unprotected(cm.entry, isParse, map[*types.Func]int{}) {
+			r.Bad(c, needed[fname], "a path from %s reaches the parsing of a block without resetting or re-allocating the cached %s, which `%s` reads: a block that omits it inherits the previous block's value instead of the format default", cm.entry.Name(), fname, neededSrc[fname])
+		} else {
+			r.OK(c, needed[fname], "every path from %s to the first read of a block's message re-allocates the cached block or resets %s", cm.entry.Name(), fname)
+		}
+	}
+	// parameters before groups
+	isParamWrite := func(f *c01Fn, n ast.Node) bool {
+		hit := false
+		ast.Inspect(n, func(x ast.Node) bool {
+			switch s := x.(type) {
+			case *ast.FuncLit:
 				return false
-			}
-			for i, l := range as.Lhs {
-				if fieldOf(info, l) == pbField && i < len(as.Rhs) {
-					if ue, ok := as.Rhs[i].(*ast.UnaryExpr); ok && ue.Op == token.AND {
-						if _, ok := ue.X.(*ast.CompositeLit); ok {
-							return true
-						}
-					}
-				}
-				if f := fieldOf(info, l); f != nil && f.Name() == fname && usesField(info, l, pbField) && i < len(as.Rhs) {
-					if id, ok := ast.Unparen(as.Rhs[i]).(*ast.Ident); ok && id.Name == "nil" {
+			case *ast.AssignStmt:
+				for _, fname := range names {
+					if isReset(fname)(f, s) {
 						return true
 					}
-					if se, ok := ast.Unparen(as.Rhs[i]).(*ast.SliceExpr); ok && se.High != nil {
-						if v, okc := constInt(info, se.High); okc && v == 0 && sameExpr(info, se.X, l) {
-							return true
+				}
+				for _, l := range s.Lhs {
+					if thr, last := throughBlock(f, l); thr && last != nil {
+						if _, isParam := needed[last.Name()]; isParam {
+							hit = true
 						}
 					}
 				}
-			}
-			return false
-		}
-		// is the loop head reachable from entry avoiding every defining block?
-		seen := map[*cfg.Block]bool{}
-		var dfs func(b *cfg.Block) bool
-		dfs = func(b *cfg.Block) bool {
-			if seen[b] {
-				return false
-			}
-			seen[b] = true
-			for _, n := range b.Nodes {
-				if isDef(n) {
-					return false
-				}
-			}
-			if b == head {
-				return true
-			}
-			for _, s := range b.Succs {
-				if dfs(s) {
-					return true
-				}
-			}
-			return false
-		}
-		if head == nil {
-			r.Unknown(c, bs.Decl.Pos(), "first message loop not found in the control-flow graph")
-		} else if dfs(g.Blocks[0]) {
-			r.Bad(c, needed[fname], "a path reaches the block's first parse loop without resetting or re-allocating the cached %s, which `%s` reads: a block that omits it inherits the previous block's value instead of the format default", fname, src(fs, nodeAt(bs, m, needed[fname])))
-		} else {
-			r.OK(c, needed[fname], "every path to the first parse loop re-allocates the cached block or resets %s", fname)
-		}
-	}
-	// parameters before groups: the group scanner call is in the second loop, dominated by the first loop's exit
-	dom := dominators(g)
-	var done *cfg.Block
-	for _, b := range g.Blocks {
-		if b.Kind == cfg.KindForDone && b.Stmt == loops[0] {
-			done = b
-		}
-	}
-	c := "params-before-groups@" + bs.Name()
-	var groupCall *ast.CallExpr
-	ast.Inspect(bs.Decl.Body, func(n ast.Node) bool {
-		if call, ok := n.(*ast.CallExpr); ok {
-			if fn := callee(info, call); fn != nil && fn.Pkg() == m.pk.Types && len(call.Args) == 1 {
-				if msg := cm.dataMsg[objOf(info, call.Args[0])]; msg == "PrimitiveGroup" {
-					groupCall = call
-				}
-			}
-		}
-		return true
-	})
-	// the parameter cases (granularity etc.) must all be in the first loop
-	paramsInFirst := true
-	ast.Inspect(bs.Decl.Body, func(n ast.Node) bool {
-		as, ok := n.(*ast.AssignStmt)
-		if !ok {
-			return true
-		}
-		for _, l := range as.Lhs {
-			if f := fieldOf(info, l); f != nil && usesField(info, l, pbField) {
-				if _, isParam := needed[f.Name()]; isParam && as.Pos() > loops[0].End() {
-					paramsInFirst = false
-				}
-			}
-		}
-		return true
-	})
-	switch {
-	case groupCall == nil:
-		r.Anchor("call decoding a PrimitiveGroup in " + bs.Name())
-	case done == nil:
-		r.Unknown(c, groupCall.Pos(), "exit of the first loop not found")
-	default:
-		gb, _ := blockOf(g, groupCall.Pos())
-		if gb != nil && (gb == done || dom[gb][done]) && paramsInFirst {
-			r.OK(c, groupCall.Pos(), "groups are decoded only after the first pass over the block has completed, and all block parameters are parsed in that first pass (field order in the file does not matter)")
-		} else {
-			r.Bad(c, groupCall.Pos(), "a primitive group can be decoded before all block parameters (granularity, offsets, date granularity, string table) have been parsed: a file that writes them after the groups is decoded with defaults / an empty string table")
-		}
-	}
-}
-
-func nodeAt(fi *FuncInfo, m *pbfModel, pos token.Pos) ast.Node {
-	var res ast.Node
-	for _, u := range m.units {
-		ast.Inspect(u.body, func(n ast.Node) bool {
-			if n != nil && n.Pos() == pos {
-				if _, ok := n.(*ast.CallExpr); ok && res == nil {
-					res = n
+			case *ast.CallExpr:
+				if isPkgFunc(callee(info, s), "google.golang.org/protobuf/proto", "Unmarshal") && len(s.Args) == 2 {
+					if thr, _ := throughBlock(f, s.Args[1]); thr {
+						hit = true
+					}
 				}
 			}
 			return true
 		})
+		return hit
 	}
-	if res == nil {
-		return &ast.BadExpr{}
+	isGroupDecode := func(f *c01Fn, n ast.Node) bool {
+		return c01ContainsCall(n, func(call *ast.CallExpr) bool {
+			for _, a := range call.Args {
+				if c01IsByteSlice(info.TypeOf(a)) && cm.dataOf(a) == "PrimitiveGroup" {
+					return true
+				}
+			}
+			return false
+		})
 	}
-	return res
+	sumW := c01NewSum(r.P, isParamWrite)
+	sumG := c01NewSum(r.P, isGroupDecode)
+	c := "params-before-groups@PrimitiveBlock"
+	var gpos token.Pos
+	ng := 0
+	bad := ""
+	for _, fi := range c01Reachable(r.P, bs) {
+		f := c01FnOf(r.P, fi)
+		for _, b := range f.g.Blocks {
+			if !b.Live {
+				continue
+			}
+			for i, n := range b.Nodes {
+				if !sumG.nodeMay(f, n) {
+					continue
+				}
+				ng++
+				if !gpos.IsValid() || fi == bs {
+					gpos = n.Pos()
+				}
+				// (a) once a group has been decoded no block parameter is parsed any more
+				after := func(x ast.Node) bool { return sumW.nodeMay(f, x) }
+				start, si := b, i+1
+				if c01ReachAvoiding(f, start, si, after, nil) {
+					bad = fmt.Sprintf("in %s a block parameter (granularity, offsets, date granularity, string table) can still be parsed after `%s` has decoded a primitive group: a file that writes parameters after groups is decoded with defaults / an empty string table", fi.Name(), src(fs, n))
+				}
+			}
+		}
+	}
+	// (b) the parameter pass runs to exhaustion: without the false edge of the `Next()` test of the loop that parses
+	// parameters, no group decode is reachable in the block scanner
+	fb := c01FnOf(r.P, bs)
+	loops := c01Loops(fb)
+	cut := map[*cfg.Block]bool{}
+	for _, l := range loops {
+		cond := fb.condOf(l.head)
+		if cond == nil || !isParse(fb, cond) {
+			continue
+		}
+		hasW := false
+		for blk := range l.blocks {
+			for _, n := range blk.Nodes {
+				if sumW.nodeMay(fb, n) {
+					hasW = true
+				}
+			}
+		}
+		if hasW && c01Eval(info, cond, func(a ast.Expr) c01Tri {
+			if isParse(fb, a) {
+				return c01F
+			}
+			return c01U
+		}) == c01F {
+			cut[l.head] = true
+		}
+	}
+	exhaust := "the parameter pass is not a loop of the block scanner itself (decided by reachability only)"
+	if len(cut) > 0 {
+		exhaust = "the groups are only reachable through the exhausted exit of the parameter loop"
+		seen := map[*cfg.Block]bool{fb.g.Blocks[0]: true}
+		work := []*cfg.Block{fb.g.Blocks[0]}
+		for len(work) > 0 {
+			b := work[len(work)-1]
+			work = work[:len(work)-1]
+			for _, n := range b.Nodes {
+				if sumG.nodeMay(fb, n) && bad == "" {
+					bad = fmt.Sprintf("`%s` decodes a primitive group on a path that leaves the parameter loop before the block's message is exhausted: parameters written later in the block are not applied to it", src(fs, n))
+				}
+			}
+			for i, nb := range b.Succs {
+				if cut[b] && i == 1 {
+					continue
+				}
+				if !seen[nb] {
+					seen[nb] = true
+					work = append(work, nb)
+				}
+			}
+		}
+	}
+	switch {
+	case ng == 0:
+		r.Anchor("call decoding a PrimitiveGroup below " + bs.Name())
+	case bad != "":
+		r.Bad(c, gpos, "%s", bad)
+	default:
+		r.OK(c, gpos, "no block parameter is parsed once a primitive group has been decoded, so all of them are parsed in an earlier pass whatever the field order in the file; %s", exhaust)
+	}
 }
 
 // ---------------------------------------------------------------- R6
@@ -592,12 +696,9 @@ func c01R6(r *core.R) {
 	info := m.info
 	fs := r.P.Fset
 	// element literals
-	for _, u := range m.sortedUnits() {
-		fd, ok := u.node.(*ast.FuncDecl)
-		if !ok || !u.roles["worker"] || isGenerated(r.P, fd.Pos()) {
-			continue
-		}
-		ast.Inspect(fd.Body, func(n ast.Node) bool {
+	for _, fi := range cm.worker {
+		fi := fi
+		ast.Inspect(fi.Decl.Body, func(n ast.Node) bool {
 			cl, ok := n.(*ast.CompositeLit)
 			if !ok {
 				return true
@@ -612,7 +713,7 @@ func c01R6(r *core.R) {
 			if kind == "" {
 				return true
 			}
-			c := "default@" + u.fi.Name() + " " + kind + " literal"
+			c := "default@" + kind + " literal"
 			vis := false
 			for _, e := range cl.Elts {
 				if kv, ok := e.(*ast.KeyValueExpr); ok {
@@ -624,9 +725,9 @@ func c01R6(r *core.R) {
 				}
 			}
 			if vis {
-				r.OK(c, cl.Pos(), "`%s` starts from the format default visible=true", src(fs, cl))
+				r.OK(c, cl.Pos(), "`%s` in %s starts from the format default visible=true", src(fs, cl), fi.Name())
 			} else {
-				r.Bad(c, cl.Pos(), "`%s` does not set Visible: true: an element whose block carries no visible column/flag is reported as deleted", src(fs, cl))
+				r.Bad(c, cl.Pos(), "`%s` in %s does not set Visible: true: an element whose block carries no visible column/flag is reported as deleted", src(fs, cl), fi.Name())
 			}
 			return true
 		})
@@ -647,79 +748,153 @@ func c01R6(r *core.R) {
 		"RequiredFeatures": "GetRequiredFeatures", "OptionalFeatures": "GetOptionalFeatures", "WritingProgram": "GetWritingprogram", "Source": "GetSource",
 		"ReplicationBaseURL": "GetOsmosisReplicationBaseUrl", "ReplicationSeqNum": "GetOsmosisReplicationSequenceNumber",
 	}
+	edge := map[string]string{"MinLon": "Left", "MaxLon": "Right", "MinLat": "Bottom", "MaxLat": "Top"}
 	got := map[string]bool{}
-	ast.Inspect(hdr.Decl.Body, func(n ast.Node) bool {
-		cl, ok := n.(*ast.CompositeLit)
-		if !ok {
-			return true
+	// walkValue visits the expression and, for locals defined once, the expression they were read from
+	var walkValue func(fi *FuncInfo, e ast.Node, depth int, visit func(ast.Node))
+	walkValue = func(fi *FuncInfo, e ast.Node, depth int, visit func(ast.Node)) {
+		if e == nil || depth > 4 {
+			return
 		}
-		switch namedPath(info.TypeOf(cl)) {
+		ast.Inspect(e, func(x ast.Node) bool {
+			if x == nil {
+				return true
+			}
+			visit(x)
+			if id, ok := x.(*ast.Ident); ok {
+				if o := info.Uses[id]; o != nil {
+					if rhs := c01SingleDef(info, fi.Decl.Body, o); rhs != nil {
+						walkValue(fi, rhs, depth+1, visit)
+					}
+				}
+			}
+			return true
+		})
+	}
+	// store(fi, type, field, value, pos): one value stored into a field of Header / Bounds
+	store := func(fi *FuncInfo, tn, k string, value ast.Expr, pos token.Pos) {
+		switch tn {
 		case core.ModulePath + "/osmpbf.Header":
-			for _, e := range cl.Elts {
-				kv, ok := e.(*ast.KeyValueExpr)
-				if !ok {
-					continue
-				}
-				k := kv.Key.(*ast.Ident).Name
-				w, known := want[k]
-				if !known {
-					continue
-				}
+			if k == "ReplicationTimestamp" {
+				c := "header@ReplicationTimestamp"
 				got[k] = true
-				var calls []string
-				ast.Inspect(kv.Value, func(x ast.Node) bool {
-					if call, ok := x.(*ast.CallExpr); ok {
-						if fn := callee(info, call); fn != nil && strings.HasPrefix(fn.Name(), "Get") {
-							calls = append(calls, fn.Name())
+				srcField := ""
+				var srcExpr ast.Expr
+				unixSec := false
+				walkValue(fi, value, 0, func(x ast.Node) {
+					if sel, ok := x.(*ast.SelectorExpr); ok {
+						if ff := fieldOf(info, sel); ff != nil && c01GenTypeName(selRecv(info, sel)) == "HeaderBlock" {
+							srcField, srcExpr = ff.Name(), sel
 						}
 					}
-					return true
+					if call, ok := x.(*ast.CallExpr); ok {
+						if fn := callee(info, call); fn != nil && fn.Name() == "GetOsmosisReplicationTimestamp" {
+							srcField = "getter"
+						}
+						if isPkgFunc(callee(info, call), "time", "Unix") && len(call.Args) == 2 {
+							if v, okc := constInt(info, call.Args[1]); okc && v == 0 {
+								unixSec = true
+							}
+						}
+					}
 				})
-				c := "header@" + k
-				if len(calls) == 1 && calls[0] == w {
-					r.OK(c, kv.Pos(), "Header.%s = %s()", k, w)
-				} else {
-					r.Bad(c, kv.Pos(), "Header.%s is filled from %v; the header block's field for it is read by %s", k, calls, w)
+				guarded := false
+				if srcExpr != nil {
+					f := c01FnOf(r.P, fi)
+					guarded = knownNonNil(f.factsAtPos(pos), func(y ast.Expr) bool { return c01Same(info, fi.Decl.Body, y, srcExpr) }) != nil
 				}
+				if srcField == "OsmosisReplicationTimestamp" && guarded && unixSec {
+					r.OK(c, pos, "set from osmosis_replication_timestamp as seconds since the epoch, only when the field is present")
+				} else {
+					r.Bad(c, pos, "`%s` (source field %s, under a presence test of it: %v, seconds: %v): an absent timestamp must stay zero and a present one is seconds since the epoch", src(fs, value), srcField, guarded, unixSec)
+				}
+				return
+			}
+			w, known := want[k]
+			if !known {
+				return
+			}
+			got[k] = true
+			var calls []string
+			walkValue(fi, value, 0, func(x ast.Node) {
+				if call, ok := x.(*ast.CallExpr); ok {
+					if fn := callee(info, call); fn != nil && strings.HasPrefix(fn.Name(), "Get") && c01GenTypeName(c01RecvTypeOf(fn)) != "" {
+						calls = append(calls, fn.Name())
+					}
+				}
+			})
+			c := "header@" + k
+			if len(calls) == 1 && calls[0] == w {
+				r.OK(c, pos, "Header.%s = %s()", k, w)
+			} else {
+				r.Bad(c, pos, "Header.%s is filled from %v; the header block's field for it is read by %s", k, calls, w)
 			}
 		case core.ModulePath + ".Bounds":
-			edge := map[string]string{"MinLon": "Left", "MaxLon": "Right", "MinLat": "Bottom", "MaxLat": "Top"}
-			for _, e := range cl.Elts {
-				kv, ok := e.(*ast.KeyValueExpr)
-				if !ok {
-					continue
-				}
-				k := kv.Key.(*ast.Ident).Name
-				w, known := edge[k]
-				if !known {
-					continue
-				}
-				got[k] = true
-				var flds []string
-				scale := false
-				ast.Inspect(kv.Value, func(x ast.Node) bool {
-					if sel, ok := x.(*ast.SelectorExpr); ok {
-						if f := fieldOf(info, sel); f != nil && strings.HasSuffix(namedPath(selRecv(info, sel)), ".HeaderBBox") {
-							flds = append(flds, f.Name())
-						}
+			w, known := edge[k]
+			if !known {
+				return
+			}
+			got[k] = true
+			var flds []string
+			scale := false
+			walkValue(fi, value, 0, func(x ast.Node) {
+				if sel, ok := x.(*ast.SelectorExpr); ok {
+					if f := fieldOf(info, sel); f != nil && c01GenTypeName(selRecv(info, sel)) == "HeaderBBox" {
+						flds = append(flds, f.Name())
 					}
-					if e2, ok := x.(ast.Expr); ok {
-						if tv, ok := info.Types[e2]; ok && tv.Value != nil && tv.Value.String() == "1e-09" {
-							scale = true
-						}
-					}
-					return true
-				})
-				c := "header@Bounds." + k
-				if len(flds) == 1 && flds[0] == w && scale {
-					r.OK(c, kv.Pos(), "Bounds.%s = 1e-9 * bbox.%s (nanodegrees, no granularity)", k, w)
-				} else {
-					r.Bad(c, kv.Pos(), "Bounds.%s is computed from bbox.%v (scaled by 1e-9: %v); the format puts it in bbox.%s in nanodegrees", k, flds, scale, w)
 				}
+				if call, ok := x.(*ast.CallExpr); ok {
+					if fn := callee(info, call); fn != nil && strings.HasPrefix(fn.Name(), "Get") && c01GenTypeName(c01RecvTypeOf(fn)) == "HeaderBBox" {
+						flds = append(flds, strings.TrimPrefix(fn.Name(), "Get"))
+					}
+				}
+				if e2, ok := x.(ast.Expr); ok {
+					if tv, ok := info.Types[e2]; ok && tv.Value != nil && tv.Value.String() == "1e-09" {
+						scale = true
+					}
+				}
+			})
+			c := "header@Bounds." + k
+			if len(flds) == 1 && flds[0] == w && scale {
+				r.OK(c, pos, "Bounds.%s = 1e-9 * bbox.%s (nanodegrees, no granularity)", k, w)
+			} else {
+				r.Bad(c, pos, "Bounds.%s is computed from bbox.%v (scaled by 1e-9: %v); the format puts it in bbox.%s in nanodegrees", k, flds, scale, w)
 			}
 		}
-		return true
-	})
+	}
+	for _, fi := range c01Reachable(r.P, hdr) {
+		fi := fi
+		if fi == cm.blobData {
+			continue
+		}
+		ast.Inspect(fi.Decl.Body, func(n ast.Node) bool {
+			switch s := n.(type) {
+			case *ast.CompositeLit:
+				tn := namedPath(info.TypeOf(s))
+				for _, e := range s.Elts {
+					if kv, ok := e.(*ast.KeyValueExpr); ok {
+						if id, ok := kv.Key.(*ast.Ident); ok {
+							store(fi, tn, id.Name, kv.Value, kv.Pos())
+						}
+					}
+				}
+			case *ast.AssignStmt:
+				if len(s.Lhs) != len(s.Rhs) {
+					return true
+				}
+				for i, l := range s.Lhs {
+					sel, ok := ast.Unparen(l).(*ast.SelectorExpr)
+					if !ok {
+						continue
+					}
+					if f := fieldOf(info, sel); f != nil {
+						store(fi, namedPath(info.TypeOf(sel.X)), f.Name(), s.Rhs[i], s.Pos())
+					}
+				}
+			}
+			return true
+		})
+	}
 	for k := range want {
 		if !got[k] {
 			r.Bad("header@"+k, hdr.Decl.Pos(), "Header.%s is never filled from the header block", k)
@@ -730,59 +905,7 @@ func c01R6(r *core.R) {
 			r.Bad("header@Bounds."+k, hdr.Decl.Pos(), "Bounds.%s is never filled from the header bbox", k)
 		}
 	}
-	// replication timestamp only under a presence test, from the timestamp field, as seconds
-	c := "header@ReplicationTimestamp"
-	okTS := false
-	ast.Inspect(hdr.Decl.Body, func(n ast.Node) bool {
-		as, ok := n.(*ast.AssignStmt)
-		if !ok || len(as.Lhs) != 1 {
-			return true
-		}
-		f := fieldOf(info, as.Lhs[0])
-		if f == nil || f.Name() != "ReplicationTimestamp" {
-			return true
-		}
-		par := parentsOf(r.P, hdr)
-		var ifs *ast.IfStmt
-		for p := par[as]; p != nil; p = par[p] {
-			if i, ok := p.(*ast.IfStmt); ok {
-				ifs = i
-				break
-			}
-		}
-		srcField := ""
-		unixSec := false
-		ast.Inspect(as.Rhs[0], func(x ast.Node) bool {
-			if sel, ok := x.(*ast.SelectorExpr); ok {
-				if ff := fieldOf(info, sel); ff != nil && strings.HasSuffix(namedPath(selRecv(info, sel)), ".HeaderBlock") {
-					srcField = ff.Name()
-				}
-			}
-			if call, ok := x.(*ast.CallExpr); ok && isPkgFunc(callee(info, call), "time", "Unix") && len(call.Args) == 2 {
-				if v, okc := constInt(info, call.Args[1]); okc && v == 0 {
-					unixSec = true
-				}
-			}
-			return true
-		})
-		guard := ""
-		if ifs != nil {
-			if be, ok := ast.Unparen(ifs.Cond).(*ast.BinaryExpr); ok && be.Op == token.NEQ {
-				if ff := fieldOf(info, be.X); ff != nil {
-					guard = ff.Name()
-				}
-			}
-		}
-		if srcField == "OsmosisReplicationTimestamp" && guard == srcField && unixSec {
-			okTS = true
-			r.OK(c, as.Pos(), "set from osmosis_replication_timestamp as seconds since the epoch, only when the field is present")
-		} else {
-			okTS = true
-			r.Bad(c, as.Pos(), "`%s` (source field %s, presence guard on %q, seconds: %v): an absent timestamp must stay zero and a present one is seconds since the epoch", src(fs, as), srcField, guard, unixSec)
-		}
-		return true
-	})
-	if !okTS {
-		r.Bad(c, hdr.Decl.Pos(), "Header.ReplicationTimestamp is never set")
+	if !got["ReplicationTimestamp"] {
+		r.Bad("header@ReplicationTimestamp", hdr.Decl.Pos(), "Header.ReplicationTimestamp is never set")
 	}
 }
